@@ -199,6 +199,9 @@ func rawRequest(rq Req, closeConn bool) string {
 	default:
 		sb.WriteString("Accept: application/json\r\n")
 	}
+	for _, h := range rq.Extra {
+		sb.WriteString(h[0] + ": " + h[1] + "\r\n")
+	}
 	if closeConn {
 		sb.WriteString("Connection: close\r\n")
 	}
